@@ -1,7 +1,7 @@
 (* C06 -- property theorems only: statement + exact + Print Assumptions. *)
 From Coq Require Import List ZArith Bool String.
 From LJT Require Import model.Transform model.TransformSpec
-  proofs.TransformProofs proofs.TransformPlane proofs.TransformImage proofs.TransformGeneral proofs.TransformPerfect
+  proofs.TransformProofs proofs.TransformPlane proofs.TransformImage proofs.TransformGeneral proofs.TransformPerfect proofs.TransformLoops
   gen.GenXform proofs.TransformGenFacts.
 Import ListNotations.
 Local Open Scope Z_scope.
@@ -273,25 +273,20 @@ Print Assumptions C06_model_trim_table.
 Theorem C06_tj_crop_alignment : forall im n t p,
   request_workspace im (tj_xopts n t) = inr p -> t_crop t = true ->
   let d := get_dst_subsamp (get_subsamp im) (t_gray t) (t_op t) in
-  (tj_precheck im n t = None <-> (d <> -1 /\ t_x t mod tj_mcu_w d = 0 /\ t_y t mod tj_mcu_h d = 0)).
+  (tj_precheck im n t = None <-> (d <> -1 /\ t_x t mod p_imw p = 0 /\ t_y t mod p_imh p = 0)).
 Proof. exact tj_crop_alignment. Qed.
 Print Assumptions C06_tj_crop_alignment.
 
-(* for the seven TJSAMP layouts that grid is the destination iMCU grid (getSubsamp/getDstSubsamp modelled) *)
+(* for the seven TJSAMP layouts the level is always known and its tjMCU grid (used by tj3TransformBufSize)
+   is that iMCU grid (getSubsamp/getDstSubsamp modelled statement by statement) *)
 Theorem C06_tj_crop_alignment_std : forall im n t p,
   In (i_cs im, layout_of im) std_layouts ->
   request_workspace im (tj_xopts n t) = inr p -> t_crop t = true ->
-  (tj_precheck im n t = None <-> (t_x t mod p_imw p = 0 /\ t_y t mod p_imh p = 0)).
+  (tj_precheck im n t = None <-> (t_x t mod p_imw p = 0 /\ t_y t mod p_imh p = 0)) /\
+  let d := get_dst_subsamp (get_subsamp im) (t_gray t) (t_op t) in
+  tj_mcu_w d = p_imw p /\ tj_mcu_h d = p_imh p.
 Proof. exact tj_crop_alignment_std. Qed.
 Print Assumptions C06_tj_crop_alignment_std.
-
-(* FINDING: for non-standard layouts that getSubsamp() classifies (here 2x1,2x1,2x1 -> 4:4:4) the grid
-   is NOT the image's iMCU grid: an origin off the real grid is accepted, result wider than requested *)
-Theorem C06_tj_crop_alignment_nonstd_refuted :
-  exists im n t p, request_workspace im (tj_xopts n t) = inr p /\ t_crop t = true /\
-                   tj_precheck im n t = None /\ t_x t mod p_imw p <> 0 /\ p_ow p <> t_w t.
-Proof. exact tj_crop_alignment_nonstd_refuted. Qed.
-Print Assumptions C06_tj_crop_alignment_nonstd_refuted.
 
 Theorem C06_source_tj_tables :
   tj_samp_mcu = map (fun e => snd (fst e)) gen_tjsamp /\
@@ -320,6 +315,30 @@ Theorem C06_tj_grid_is_dst_imcu :
                                      (if tr then 8 * vs else 8 * hs, if tr then 8 * hs else 8 * vs)) gen_tjsamp.
 Proof. exact tj_mcu_is_dst_imcu. Qed.
 Print Assumptions C06_tj_grid_is_dst_imcu.
+
+(* (9) the loop nests: after the writes of a routine the destination array is defined exactly on its
+   iteration space (real blocks + padding strips up to the next multiple of the sampling factors),
+   every real block is inside and holds the specified block *)
+Theorem C06_loop_nests : forall op slow g src x y,
+  geom_ok g -> 0 <= g_wb g -> 0 <= g_hb g ->
+  (op = XFlipH -> g_yco g = 0 -> slow = false -> inplace_ok g) ->
+  let wit := if transposes op then (g_wb g + g_hs g - 1) / g_hs g * g_hs g else g_wb g in
+  let hit := (g_hb g + g_vs g - 1) / g_vs g * g_vs g in
+  (0 <= x < wit /\ 0 <= y < hit -> exists v, exec_nest op slow g src x y = Some v /\ v = exec_comp op slow g src x y) /\
+  (~ (0 <= x < wit /\ 0 <= y < hit) -> exec_nest op slow g src x y = None) /\
+  g_wb g <= wit /\ g_hb g <= hit /\
+  (0 <= x < g_wb g -> 0 <= y < g_hb g -> exec_nest op slow g src x y = Some (spec_comp op g src x y)).
+Proof. exact exec_nest_spec. Qed.
+Print Assumptions C06_loop_nests.
+
+Theorem C06_source_routine_shapes :
+  map fst gen_blockwise = ["do_crop"; "do_flip_h_no_crop"; "do_flip_h"; "do_flip_v"; "do_transpose"; "do_rot_90";
+                           "do_rot_270"; "do_rot_180"; "do_transverse"]%string /\
+  forallb (fun e => Bool.eqb (snd e) (transposes (routine_op (fst e)))) gen_blockwise = true /\
+  forallb (fun e => let op := routine_op (fst (fst e)) in
+                    srcdim_eqb (snd (fst e)) (trim_dim_right op) && srcdim_eqb (snd e) (trim_dim_bottom op)) gen_mcu_dims = true.
+Proof. exact routine_shapes_from_source. Qed.
+Print Assumptions C06_source_routine_shapes.
 
 (* ---- non-vacuity ---- *)
 Example C06_ex_whole_image : whole_image ex_image 3 2.
@@ -361,3 +380,10 @@ Example C06_ex_partial_geometry :
   ~ perfect_for XRot90 ex_image4 /\
   (mirrors_src_y XRot90 = true -> max_vs (i_comps ex_image4) * 8 <= i_h ex_image4).
 Proof. exact ex_image4_regular. Qed.
+
+(* non-standard layout 2x1,2x1,2x1: classified 4:4:4 (grid 8) but iMCU 16: origin x=8 refused, x=16 accepted *)
+Example C06_ex_nonstd_grid :
+  let d := get_dst_subsamp (get_subsamp ex_image_2x1) false XNone in
+  d = 0 /\ tj_mcu_w d = 8 /\ tj_precheck ex_image_2x1 1 ex_tjx_off = Some EAlign /\
+  tj_precheck ex_image_2x1 1 (mktjx XNone false false false true 16 8 16 16) = None.
+Proof. exact ex_nonstd_grid. Qed.
